@@ -660,6 +660,34 @@ def rule_extract(ctx):
                   "%s is assigned under extension arm(s) %s, expected %s" % (name, sorted(arms), var), ctx.loc(b))
 
 
+def rule_extension_wire_type(ctx):
+    """R7: the extension type that enters the fingerprint is the value sent on the wire.  tls-parser (0.12, the pinned dependency)
+    files every extension whose type matches `t & 0x0f0f == 0x0a0a` - 256 values, of which RFC 8701 reserves 16 - under
+    `TlsExtension::Grease(t, data)`, and `TlsExtensionType::from(&TlsExtension)` maps that variant to the constant 0xfafa: the
+    conversion is lossy for exactly this variant.  A type obtained through the conversion alone therefore turns 0x1a2a, 0x3a4a, ... into
+    0xfafa, which the GREASE filter then removes: a non-GREASE extension disappears from JA4_a's count and from JA4_c.  For the
+    Grease variant the type must be read from the variant's own field"""
+    P = ctx.program
+    b = P.body(TPR + "extract_tls_signature_from_client_hello")
+    S = T.Slicer(b, P)
+    n = 0
+    for blk, t in Q.calls(b, "Vec::<T, A>::push"):
+        a = Q.call_args(b, S, blk, t)
+        if not any(x[0] == "local" and x[2] == "extensions" for x in T.walk(a[0])) and b.local_name(TB._root_local(b, (t["args"][0].get("m") or t["args"][0].get("c"))["l"])) != "extensions":
+            continue
+        v = a[1]
+        if not T.has_call(v, "TlsExtensionType") and not any(x[0] == "downcast" and x[2] == "Grease" for x in T.walk(v)):
+            continue
+        n += 1
+        via_conv = any(x[0] == "call" and "TlsExtensionType" in x[1] and x[1].endswith("::from") for x in T.walk(v))
+        wire = any(x[0] == "downcast" and x[2] == "Grease" for x in T.walk(v))
+        ctx.check(wire or not via_conv, "R7", "extract:extension-wire-type", "the type of a Grease-classified extension is read from the extension itself",
+                  "the extension type is taken from TlsExtensionType::from(&extension) for every variant: tls-parser classifies all 256 types matching 0x?a?a as Grease "
+                  "and that conversion returns 0xfafa for them, so a non-GREASE extension such as 0x1a2a is removed by the GREASE filter and is missing from the "
+                  "fingerprint (ClientHello with extensions [0x7777, 0x1a2a, 0x8888] records [0x7777, 0x8888])", ctx.loc(b, blk))
+    ctx.floor("R7", "extension-type push sites", n, 1)
+
+
 def rule_reader_admits(ctx):
     """a ClientHello reaches the fingerprint code through the record reader: what the reader refuses is never fingerprinted (shared
     with C08.R1/R4: complete record handed over, cap between the largest legal record and 64 KiB)"""
@@ -669,6 +697,7 @@ def rule_reader_admits(ctx):
 
 
 def run(ctx):
+    rule_extension_wire_type(ctx)
     rule_reader_admits(ctx)
     rule_R1(ctx)
     rule_R2_R3_R4(ctx)
